@@ -32,12 +32,16 @@ ReachAll(S) == ReachFrom(S, {})
 Pred(C, n) == {m \in C : IsMan(m) /\ n \in Succ(m)}
 Tagged(T) == {T[r] : r \in {q \in Refs : T[q] # 0}}
 
-\* ----- required effect of Delete
+\* ----- required effect of Delete (C09): with AutoGC it removes, recursively, exactly the untagged manifests whose
+\* subject was removed and the untagged nodes that thereby lost their last predecessor - never a node a surviving
+\* node still links to.  A manifest "links to" what it contains (config, layers, manifests, blobs); its subject is
+\* what it refers to: a referrer does not keep its subject alive, but an index that lists a referrer keeps it.
+Contains(q, m) == IsMan(q) /\ m \in Succ(q) /\ Subj(q) # m
 RECURSIVE DelSet(_, _, _)
 DelSet(S, C, T) ==
   LET add == {m \in C \ S :
                 /\ m \notin Tagged(T)
-                /\ \/ (IsMan(m) /\ Subj(m) # 0 /\ Subj(m) \in S)
+                /\ \/ (IsMan(m) /\ Subj(m) # 0 /\ Subj(m) \in S /\ \A q \in C \ S : ~Contains(q, m))
                    \/ ((\E q \in S : m \in Succ(q)) /\ (\A q \in C \ S : ~(IsMan(q) /\ m \in Succ(q))))}
   IN IF add = {} THEN S ELSE DelSet(S \cup add, C, T)
 
